@@ -336,7 +336,7 @@ def run_case(ctx, case, keep=None):
 
 def run(ctx):
     rng = ctx.rng
-    n = 150 if ctx.tier == 'quick' else 10**7
+    n = 1500 if ctx.tier == 'quick' else 10**7
     for i in range(n):
         if ctx.expired():
             break
